@@ -37,7 +37,7 @@ class KnownFindings(object):
     def match(self, prop, key):
         """Return the entry listing exactly this failing input (status 'known'), else None."""
         for e in self.entries:
-            if e.get("property") == prop and e.get("status") == "known":
+            if (e.get("property") == prop or prop in e.get("properties", [])) and e.get("status") == "known":
                 if key in e.get("keys", []):
                     return e
         return None
